@@ -135,6 +135,10 @@ class _Context:
     self.decode_func = decode_func
     self.text_buffer = bytearray()
 
+    # a space is pending if one or more spaces or control codes have followed a character of the line
+    self.is_space_pending = False
+    self.is_line_started = False
+
   def reset_styles(self, is_teletext: bool):
     self.fg_color = styles.NamedColors.white.value
     self.bg_color = styles.NamedColors.black.value if is_teletext else styles.NamedColors.transparent.value
@@ -197,7 +201,20 @@ class _Context:
 
   def append_character(self, c):
     self.start_span()
+    if self.is_space_pending:
+      self.text_buffer.append(0x20)
+      self.is_space_pending = False
     self.text_buffer.append(c)
+    self.is_line_started = True
+
+  def append_space(self):
+    """Records a space or a control code: consecutive ones are rendered as a single space
+    if characters both precede and follow them on the line"""
+    self.is_space_pending = self.is_line_started
+
+  def start_line(self):
+    self.is_space_pending = False
+    self.is_line_started = False
 
 
 def to_model(element: model.ContentElement, is_teletext: bool, tti_cct: bytes, tti_tf: bytes):
@@ -225,10 +242,13 @@ def to_model(element: model.ContentElement, is_teletext: bool, tti_cct: bytes, t
       break
 
     if _is_character_code(c):
-      if _is_printable_code(c) or (_is_printable_code(tf_iter.peek_next()) and _is_printable_code(tf_iter.peek_prev())):
+      if _is_printable_code(c):
         context.append_character(c)
+      else:
+        context.append_space()
 
     elif _is_newline_code(c):
+      context.start_line()
       if not _is_newline_code(tf_iter.peek_next()) and not _is_unused_space_code(tf_iter.peek_next()):
         context.end_span()
         element.push_child(model.Br(element.get_doc()))
@@ -269,8 +289,7 @@ def to_model(element: model.ContentElement, is_teletext: bool, tti_cct: bytes, t
       elif c == 0x83:
         context.set_underline(False)
 
-      if (_is_printable_code(tf_iter.peek_next()) and _is_printable_code(tf_iter.peek_prev())):
-        context.append_character(0X20)
+      context.append_space()
 
     next(tf_iter)
 
